@@ -12,6 +12,7 @@ import (
 	"encoding/json"
 	"fmt"
 	"os"
+	"runtime"
 	"strconv"
 	"sync"
 	"time"
@@ -29,6 +30,8 @@ type Replay struct {
 	Inputs  []Input           `json:"inputs"`
 	Params  map[string]string `json:"params"`
 	pos     int
+	racy    bool
+	rng     uint64
 	Failed  []string `json:"-"`
 	Observe []string `json:"-"`
 	Reached []string `json:"-"`
@@ -224,8 +227,35 @@ func ConcretizeByte(x byte) byte    { return x }
 func ConcretizeStr(s string) string { return s }
 func IsSymbolic(x any) bool         { return false }
 func ExploreMapOrder(on bool)       {}
-func ExploreSchedules(on bool)      {}
-func Yield()                        {}
+
+// ExploreSchedules marks the run as schedule dependent: natively the replay is repeated with
+// randomised delays at the yield points until the recorded failure shows or the attempts run out.
+func ExploreSchedules(on bool) {
+	if on {
+		mu.Lock()
+		cur.racy = true
+		mu.Unlock()
+	}
+}
+
+// Yield is a scheduling point: natively a short random delay.
+func Yield() {
+	mu.Lock()
+	r := cur.racy
+	cur.rng = cur.rng*6364136223846793005 + 1442695040888963407
+	d := (cur.rng >> 33) % 4
+	mu.Unlock()
+	if !r {
+		return
+	}
+	switch d {
+	case 0:
+	case 1:
+		runtime.Gosched()
+	default:
+		time.Sleep(time.Duration(d*50) * time.Microsecond)
+	}
+}
 
 // MayPanic runs f and reports whether it panicked.
 func MayPanic(f func()) (panicked bool) {
@@ -278,6 +308,7 @@ func runFile(file string, entries map[string]func()) {
 	}
 	var hdr struct {
 		Entry string `json:"entry"`
+		Kind  string `json:"kind"`
 	}
 	if err := json.Unmarshal(data, &hdr); err != nil {
 		fail(err.Error())
@@ -293,13 +324,29 @@ func runFile(file string, entries map[string]func()) {
 		return
 	}
 	fmt.Printf("VERIF-NATIVE-START %s\n", file)
-	runOne(file, entry)
+	// schedule-dependent runs are repeated with different random delays until an obligation fails
+	for attempt := 0; attempt < 400; attempt++ {
+		if attempt > 0 {
+			if err := LoadJSON(data); err != nil {
+				return
+			}
+			cur.racy = true
+		}
+		cur.rng = uint64(attempt)*2654435761 + 12345
+		// explored paths that passed ("trace") are run once; only recorded failures are searched for
+		last := attempt == 399 || hdr.Kind == "trace"
+		if runOne(file, entry, last) {
+			return
+		}
+	}
 }
 
 // WatchdogSeconds bounds one native replay; a run that does not return in time is reported as "timeout".
 var WatchdogSeconds = 20
 
-func runOne(file string, entry func()) {
+// runOne runs the entry once and prints the result line; for a schedule-dependent run that
+// passed, it prints nothing (and returns false) unless final is set, so that the caller retries.
+func runOne(file string, entry func(), final bool) bool {
 	res := "ok"
 	msg := ""
 	st := cur
@@ -324,7 +371,14 @@ func runOne(file string, entry func()) {
 		// the goroutine cannot be stopped; it keeps spinning while the remaining files are replayed
 		b, _ := json.Marshal(map[string]any{"file": file, "result": "timeout", "msg": fmt.Sprintf("no result after %d s", WatchdogSeconds)})
 		fmt.Printf("VERIF-NATIVE %s\n", b)
-		return
+		return true
+	}
+	mu.Lock()
+	racy := st.racy
+	failed := append([]string(nil), st.Failed...)
+	mu.Unlock()
+	if racy && res == "ok" && len(failed) == 0 && !final {
+		return false
 	}
 	out := struct {
 		File    string   `json:"file"`
@@ -333,7 +387,8 @@ func runOne(file string, entry func()) {
 		Failed  []string `json:"failed,omitempty"`
 		Observe []string `json:"observe,omitempty"`
 		Tags    []string `json:"tags,omitempty"`
-	}{file, res, msg, st.Failed, st.Observe, st.Tags}
+	}{file, res, msg, failed, st.Observe, st.Tags}
 	b, _ := json.Marshal(out)
 	fmt.Printf("VERIF-NATIVE %s\n", b)
+	return true
 }
